@@ -5,7 +5,7 @@ no statement is skipped and every other path keeps the original blocks. Only inf
 `return None` reaching the caller's `Some(..)` arm)."""
 import copy
 
-MAX_CHAIN = 8
+MAX_CHAIN = 16
 
 
 TRY_BRANCH = 'std::ops::Try::branch'
@@ -25,7 +25,70 @@ def _single_succ(t):
     return None
 
 
-def _thread_one(b, P, max_new, dry=False):
+def _succs(t):
+    if not t:
+        return []
+    k = t['k']
+    out = []
+    if k == 'goto':
+        out = [t['target']]
+    elif k == 'switch':
+        out = [tb for (_, tb) in t['targets']] + [t['otherwise']]
+    elif k in ('call', 'drop', 'assert'):
+        out = [t.get('target')]
+    return [x for x in out if x is not None]
+
+
+def flag_constants(b):
+    """{block: {local: bool}} — the value, at the ENTRY of each block, of the locals that are only ever assigned boolean constants and
+    never borrowed (drop flags, hand-written boolean markers), when it is the same on every path into the block (forward must-analysis)"""
+    blocks = b['blocks']
+    cand, bad = set(), set()
+    for blk in blocks:
+        for st in blk['stmts']:
+            if st['k'] != 'assign':
+                continue
+            pl, rv = st['place'], st['rv']
+            if rv['k'] in ('ref', 'rawptr'):
+                bad.add(rv['place']['l'])
+            if pl['p']:
+                bad.add(pl['l'])
+            elif rv['k'] == 'use' and 'const' in rv['op'] and 'bool' in rv['op']['const']:
+                cand.add(pl['l'])
+            else:
+                bad.add(pl['l'])
+        t = blk['term']
+        if t and t['k'] == 'call' and t.get('dest'):
+            bad.add(t['dest']['l'])
+    flags = cand - bad - set(range(0, b.get('arg_count', 0) + 1))
+    if not flags:
+        return {}
+    IN = {0: {}}
+    work = [0]
+    n = 0
+    while work and n < 20000:
+        n += 1
+        bb = work.pop()
+        S = dict(IN[bb])
+        for st in blocks[bb]['stmts']:
+            if st['k'] == 'assign' and not st['place']['p'] and st['place']['l'] in flags:
+                S[st['place']['l']] = bool(st['rv']['op']['const']['bool'])
+        for tb in _succs(blocks[bb]['term']):
+            if tb >= len(blocks) or blocks[tb]['cleanup']:
+                continue
+            if tb not in IN:
+                IN[tb] = dict(S)
+                work.append(tb)
+            else:
+                cur = IN[tb]
+                new = {k: v for k, v in cur.items() if S.get(k) == v}
+                if new != cur:
+                    IN[tb] = new
+                    work.append(tb)
+    return IN
+
+
+def _thread_one(b, P, max_new, dry=False, flags=None):
     blocks = b['blocks']
     blk = blocks[P]
     if blk['cleanup']:
@@ -44,6 +107,9 @@ def _thread_one(b, P, max_new, dry=False):
         return False
     # constants known at the end of P
     known = {}          # local -> ('bool', v) | ('variant', name)
+    for l_, v_ in ((flags or {}).get(P) or {}).items():
+        known[l_] = ('bool', v_)
+    n_flags = len(known)
     for s in blk['stmts']:
         if s['k'] != 'assign':
             continue
@@ -61,25 +127,29 @@ def _thread_one(b, P, max_new, dry=False):
     if blk['term']['k'] == 'drop':
         known.pop(blk['term']['place']['l'], None)
     if residual is not None:
-        known = {t0['dest']['l']: ('variant', residual)}
-    if not known:
-        return False
+        known[t0['dest']['l']] = ('variant', residual)
+    if len(known) <= n_flags and not any(s_['k'] == 'assign' and not s_['place']['p'] and s_['place']['l'] in known for s_ in blk['stmts']):
+        return False        # nothing is decided in P itself: a flag alone is threaded from the block that sets it
     chain = []
+    resolved = {}       # index in chain -> target taken at a switch decided by what is known
+    last_good = 0
     cur = nxt
     target = None
     seen = {P}
     while len(chain) < MAX_CHAIN:
         if cur in seen or blocks[cur]['cleanup']:
-            return False
+            break
         seen.add(cur)
         cb = blocks[cur]
         discr = {}      # local -> int value of a known discriminant
+        stop = False
         for s in cb['stmts']:
             if s['k'] != 'assign':
                 continue
             pl = s['place']
             if pl['p']:
-                return False          # a write through a projection: do not duplicate effects
+                stop = True           # a write through a projection: do not duplicate effects
+                break
             rv = s['rv']
             dst = pl['l']
             if rv['k'] == 'use' and 'place' in rv['op'] and not rv['op']['place']['p'] and rv['op']['place']['l'] in known:
@@ -98,6 +168,8 @@ def _thread_one(b, P, max_new, dry=False):
                 # a borrow of a tracked local may let it change: stop tracking it
                 if rv['k'] in ('ref', 'rawptr') and not rv['place']['p']:
                     known.pop(rv['place']['l'], None)
+        if stop:
+            break
         t = cb['term']
         if t and t['k'] == 'switch' and 'place' in t['discr'] and not t['discr']['place']['p']:
             x = t['discr']['place']['l']
@@ -107,16 +179,21 @@ def _thread_one(b, P, max_new, dry=False):
             elif x in known and known[x][0] == 'bool':
                 val = 1 if known[x][1] else 0
             if val is None:
-                return False
-            target = t['otherwise']
+                break
+            tgt = t['otherwise']
             for v, tb in t['targets']:
                 if v == val:
-                    target = tb
+                    tgt = tb
             chain.append(cur)
-            break
+            resolved[len(chain) - 1] = tgt
+            target = tgt
+            last_good = len(chain)
+            # keep walking: what is known may decide a later switch as well (a drop-flag test in front of the caller's match)
+            cur = tgt
+            continue
         nx = _single_succ(t)
         if nx is None:
-            return False
+            break
         if t['k'] == 'drop':
             known.pop(t['place']['l'], None)
         if t['k'] == 'call':
@@ -124,7 +201,7 @@ def _thread_one(b, P, max_new, dry=False):
             src = a0['place']['l'] if ('place' in a0 and not a0['place']['p']) else None
             dl = t['dest']['l'] if not t['dest']['p'] else None
             if dl is None:
-                return False
+                break
             if src in known and known[src][0] == 'variant' and known[src][1] in TRY_MAP:
                 known[dl] = ('variant', TRY_MAP[known[src][1]])
             else:
@@ -132,9 +209,11 @@ def _thread_one(b, P, max_new, dry=False):
         chain.append(cur)
         cur = nx
         if not known:
-            return False
-    if target is None:
+            break
+    if not resolved:
         return False
+    chain = chain[:last_good]
+    target = resolved[last_good - 1]
     if len(blocks) + len(chain) > max_new:
         return False
     if dry:
@@ -145,6 +224,8 @@ def _thread_one(b, P, max_new, dry=False):
         nb = copy.deepcopy(blocks[c])
         if n == len(chain) - 1:
             nb['term'] = {'k': 'goto', 'target': target, 'span': nb['term']['span']}
+        elif n in resolved:
+            nb['term'] = {'k': 'goto', 'target': base + n + 1, 'span': nb['term']['span']}
         else:
             nb['term']['target'] = base + n + 1
         blocks.append(nb)
@@ -160,17 +241,18 @@ def apply(bodies, fresh):
         n0 = len(b['blocks'])
         limit = n0 + 64
         copied = name in fresh
+        flags = flag_constants(b)
         for P in range(n0):
             t = b['blocks'][P]['term']
             if not t or b['blocks'][P]['cleanup'] or not (t['k'] in ('goto', 'drop') or (t['k'] == 'call' and t.get('callee') == FROM_RESIDUAL)):
                 continue
             if not copied:
                 # cheap pre-check on the shared object before paying for a deep copy
-                if not _thread_one(b, P, limit, dry=True):
+                if not _thread_one(b, P, limit, dry=True, flags=flags):
                     continue
                 b = copy.deepcopy(b)
                 bodies[name] = b
                 copied = True
-            if _thread_one(b, P, limit):
+            if _thread_one(b, P, limit, flags=flags):
                 done += 1
     return done
